@@ -49,6 +49,8 @@ def run(ck):
     impl, _, _ = lib.run_cases(rulebase.wire(det_cases + wcases), "C12det")
     # a second process: the same cases again, results must be identical where nothing is order dependent
     impl2, _, _ = lib.run_cases(rulebase.wire(det_cases), "C12det2")
+    for c in rule_cases:
+        c["otrees"] = True      # optimised trees, structurally, against the model under Order.rust_ord
     implr, modelr, _ = lib.run_cases(rulebase.wire(rule_cases), "C12rule", runner_args=["--known"])
     direct_failed = set()
     evals = 0
@@ -130,8 +132,8 @@ def run(ck):
         "each random rule is optimised %d times per switch set %s in one process (fresh hash seeds per call) and again in a second "
         "process: printed trees and three-valued verdicts on 5 documents are compared; %d threads share one Rule and match the "
         "documents in different rotations (unoptimised and fully optimised); matching in forward / reverse / forward order must "
-        "agree. Verdict differences are suppressed only when the model (all hash orders enumerated) says the result is order "
-        "dependent and a listed classifier (D16, D17) accepts; print differences under shake/matrix belong to the listed class D22. "
+        "agree. Since fix D22 (ordered maps in the optimiser) nothing is suppressed: any verdict or print difference between "
+        "calls is a violation; the optimised trees are also compared structurally with the model's (Model/Order.v rust_ord). "
         "Non-trivial = something differed between calls." % (reps, SWS, 16 if thorough else 8))
     for c in det_cases[:2]:
         ck.sample({"rule": c["rule"][:300], "crate": impl[c["id"]][:500]})
